@@ -135,7 +135,9 @@ func walkAndCopy(ctx *Ctx, v reflect.Value, seen map[uintptr]bool, events *int, 
 }
 
 type c18Payload struct {
-	Mode    string    `json:"mode"`              // fixture | pipeline
+	Mode    string    `json:"mode"`              // fixture | pipeline | synth | duprule
+	Seed    uint64    `json:"seed,omitempty"`    // synth, duprule: the value the synthetic IR is drawn from
+	Root    string    `json:"root,omitempty"`    // synth: which ast type is the root
 	Fixture string    `json:"fixture,omitempty"` // path below the repository root
 	W       *Workload `json:"workload,omitempty"`
 	Key     string    `json:"key"`
@@ -261,6 +263,17 @@ func init() {
 				findings, events = f, n
 				payload = c18Payload{Mode: "fixture", Fixture: rel}
 				res.Sample = map[string]any{"mode": "fixture", "fixture": rel, "copy_events": n}
+			} else if idx%4 == 1 || idx%4 == 2 {
+				sd := r.Side("synth").U64()
+				root := synthRoots[(idx/4)%len(synthRoots)]
+				findings, events = c18Synth(ctx, sd, root)
+				payload = c18Payload{Mode: "synth", Seed: sd, Root: root}
+				res.Sample = map[string]any{"mode": "synth", "root": root, "copy_events": events}
+			} else if idx%4 == 3 {
+				sd := r.Side("duprule").U64()
+				findings, events = c18DupRule(ctx, sd)
+				payload = c18Payload{Mode: "duprule", Seed: sd}
+				res.Sample = map[string]any{"mode": "duprule", "copy_events": events}
 			} else {
 				dir := filepath.Join(ctx.Dirs.Root, "case")
 				defer os.RemoveAll(dir)
@@ -291,6 +304,10 @@ func init() {
 			var findings map[string]copyFinding
 			if p.Mode == "fixture" {
 				findings, _, _ = c18Fixture(ctx, p.Fixture)
+			} else if p.Mode == "synth" {
+				findings, _ = c18Synth(ctx, p.Seed, p.Root)
+			} else if p.Mode == "duprule" {
+				findings, _ = c18DupRule(ctx, p.Seed)
 			} else {
 				dir := filepath.Join(ctx.Dirs.Root, "replay")
 				defer os.RemoveAll(dir)
